@@ -127,7 +127,10 @@ The negation of the full statement, on a concrete witness: -/
 theorem handles_with_unequal_size_disagree :
     let xs : List UInt8 := (List.range 20).map (·.toUInt8)
     ∃ s1 s2 out r, write 65 (init 65) xs = .ok s1 20 ∧ read 17 s1 64 = .ok s2 (out, r) ∧ out ≠ xs := by
-  sorry
+  intro xs
+  refine ⟨{ rd := 0, wr := 20, data := xs ++ List.replicate 45 0 },
+    { rd := 3, wr := 20, data := xs ++ List.replicate 45 0 },
+    xs.take 17 ++ xs.take 3, 20, by decide, by decide, by decide⟩
 
 /-! ## non-vacuity -/
 example : WF 5 { rd := 3, wr := 1, data := [1, 2, 3, 4, 5] } := by
